@@ -230,7 +230,10 @@ def check_env_transparency(ck):
     from lerax.env.classic_control import Acrobot, CartPole, ContinuousMountainCar, MountainCar, Pendulum
     from lerax.wrapper import ClipObservation, FlattenObservation, TimeLimit
     envs = {"CartPole": CartPole(), "MountainCar": MountainCar(), "ContinuousMountainCar": ContinuousMountainCar(), "Acrobot": Acrobot(), "Pendulum": Pendulum(),
-            "TimeLimit(CartPole)": TimeLimit(CartPole(), 5), "FlattenObservation(ClipObservation(Pendulum))": FlattenObservation(ClipObservation(Pendulum()))}
+            "TimeLimit(CartPole)": TimeLimit(CartPole(), 5), "FlattenObservation(ClipObservation(Pendulum))": FlattenObservation(ClipObservation(Pendulum())),
+            # non-default constructor arguments (documented options that default configurations never exercise)
+            "Acrobot(torque_max_noise=0.5)": Acrobot(torque_max_noise=0.5), "MountainCar(goal_velocity=0.02)": MountainCar(goal_velocity=0.02),
+            "CartPole(force_mag=5,pole_mass=0.2)": CartPole(force_mag=5.0, pole_mass=0.2)}
     B = 2
     for ename, env in envs.items():
         st = env.initial(key=jr.key(0))
@@ -255,6 +258,14 @@ def check_env_transparency(ck):
             ck.fact(f"nofork.{ename}.{cname}", traced_ok, "traces without converting a traced value to a Python bool (eager and jit run the same primitive sequence)")
             if not traced_ok:
                 continue
+            # depends only on its explicit arguments: a second, independent trace yields the same program with the same captured constants
+            with stubs.ode_stub(), stubs.prng_stubs():
+                tr1b = trace(lambda *a, f=f: f(env, *a), *ex, argnames=argn, label=f"{ename}.{cname}")
+            same_prog = str(tr1.jaxpr) == str(tr1b.jaxpr) and len(tr1.consts) == len(tr1b.consts) and all(
+                np.array_equal(np.asarray(a), np.asarray(b), equal_nan=True) for a, b in zip(tr1.consts, tr1b.consts)
+                if not jax.dtypes.issubdtype(getattr(a, "dtype", np.float32), jax.dtypes.prng_key))
+            ck.fact(f"explicit_arguments_only.{ename}.{cname}", same_prog,
+                    "two independent traces give the same program and the same captured constants (no hidden Python-side state or randomness)")
             itB = Interp()
             SBt = trB.symbols(itB)
             outB = trB.run(itB, SBt)
